@@ -198,6 +198,16 @@ def main():
             k = int(rng.integers(1, q.nphi))
             vv, nn = predict_shift(cfg, k, q0=q)
             v += vv; n += nn
+            # targeted origins: put the new origin right after a point where the axis normal crosses between the 4th and the 1st quadrant
+            # of the (R, Z) plane, so that the periodic closing step of the helicity count is a branch-cut crossing; and the last grid point
+            nR, nZ = q.normal_cylindrical[:, 0], q.normal_cylindrical[:, 2]
+            quad = np.where(nR >= 0, np.where(nZ >= 0, 1, 4), np.where(nZ >= 0, 2, 3))
+            cut = [j for j in range(q.nphi) if {int(quad[j]), int(quad[(j + 1) % q.nphi])} == {1, 4}]
+            for k2 in ([(cut[int(rng.integers(0, len(cut)))] + 1) % q.nphi] if cut else []) + [q.nphi - 1]:
+                if k2 in (0, k):
+                    continue
+                vv, nn = predict_shift(cfg, int(k2), q0=q)
+                v += vv; n += nn
         return v, n
 
     if a.mode == 'replay':
